@@ -44,9 +44,12 @@ var _ session.Session = (*c23Session)(nil)
 // Harness_C23_ArbitraryBytes: (a) Adapter.Decode on arbitrary bytes, every negotiated version byte.
 // A panic / out-of-range access anywhere below is reported by the executor as a violation.
 func Harness_C23_ArbitraryBytes() {
-	max := 12
+	// The multi-frame loop multiplies the path count by ~2.4 per input byte (30k paths at 8), so
+	// the loop is bounded here and the single DecodeFrame step is run up to 12 (20) bytes by
+	// Harness_C23_DecodeFrameArbitrary in package codec.
+	max := 7
 	if zzsym.Thorough() {
-		max = 20
+		max = 9
 	}
 	n := zzsym.Choice("n", max+1)
 	in := zzsym.Bytes("in", n)
@@ -134,9 +137,17 @@ func Harness_C23_Split() {
 	default:
 		sess = nil
 	}
-	maxLen := 1
+	// lengths: quick varies ChannelID (0..1) and Payload (0..1), MsgKey empty, ClientMsgNo 1 byte;
+	// thorough: MsgKey/ClientMsgNo 0..1, ChannelID 0..2, Payload 0..3.
+	lenMsgKey, lenMsgNo, lenChannel, lenPayload := 0, 1, 0, 0
 	if zzsym.Thorough() {
-		maxLen = 2
+		lenMsgKey = zzsym.Choice("send.msgKey.len", 2)
+		lenMsgNo = zzsym.Choice("send.clientMsgNo.len", 2)
+		lenChannel = zzsym.Choice("send.channelID.len", 3)
+		lenPayload = zzsym.Choice("send.payload.len", 4)
+	} else {
+		lenChannel = zzsym.Choice("send.channelID.len", 2)
+		lenPayload = zzsym.Choice("send.payload.len", 2)
 	}
 	setting := frame.Setting(zzsym.U8("send.setting"))
 	// Topic / StreamNo are covered by C22; here the stream and topic settings are off so that the
@@ -148,13 +159,13 @@ func Harness_C23_Split() {
 			SyncOnce: zzsym.Bool("send.syncOnce"), DUP: zzsym.Bool("send.dup"),
 		},
 		Setting:     setting,
-		MsgKey:      zzsym.String("send.msgKey", zzsym.Choice("send.msgKey.len", maxLen+1)),
+		MsgKey:      zzsym.String("send.msgKey", lenMsgKey),
 		Expire:      zzsym.U32("send.expire"),
 		ClientSeq:   zzsym.U64("send.clientSeq"),
-		ClientMsgNo: zzsym.String("send.clientMsgNo", zzsym.Choice("send.clientMsgNo.len", maxLen+1)),
-		ChannelID:   zzsym.String("send.channelID", zzsym.Choice("send.channelID.len", maxLen+1)),
+		ClientMsgNo: zzsym.String("send.clientMsgNo", lenMsgNo),
+		ChannelID:   zzsym.String("send.channelID", lenChannel),
 		ChannelType: zzsym.U8("send.channelType"),
-		Payload:     zzsym.Bytes("send.payload", zzsym.Choice("send.payload.len", maxLen+2)),
+		Payload:     zzsym.Bytes("send.payload", lenPayload),
 	}
 	var second frame.Frame
 	if zzsym.Choice("second", 2) == 0 {
